@@ -181,8 +181,11 @@ def make_temperature(tp):
         return Isothermal(T=tp['T'])
     if tp['kind'] == 'rodgers':
         from taurex.data.profiles.temperature import Rodgers2000
+        cov = tp.get('cov')
         return Rodgers2000(temperature_layers=list(tp['layers']),
-                           correlation_length=tp.get('corr', 5.0))
+                           correlation_length=tp.get('corr', 5.0),
+                           covariance_matrix=None if cov is None
+                           else np.array(cov, dtype=float))
     if tp['kind'] == 'tarray':
         from taurex.data.profiles.temperature.temparray import \
             TemperatureArray
@@ -193,7 +196,8 @@ def make_temperature(tp):
         return Guillot2010(T_irr=tp['T_irr'], kappa_irr=tp.get('kappa_ir', 0.01),
                            kappa_v1=tp.get('kappa_v1', 0.005),
                            kappa_v2=tp.get('kappa_v2', 0.005),
-                           alpha=tp.get('alpha', 0.5))
+                           alpha=tp.get('alpha', 0.5),
+                           T_int=tp.get('T_int', 100))
     raise ValueError(tp['kind'])
 
 
@@ -211,10 +215,20 @@ def build_model(cfg, install=True, contrib_order=None):
         chem.addGas(make_gas(m))
     pl = cfg.get('planet', {})
     st = cfg.get('star', {})
+    pkw = {k2: pl[k1] for k1, k2 in (('distance', 'planet_distance'),
+                                     ('impact', 'impact_param'),
+                                     ('period', 'orbital_period'),
+                                     ('albedo', 'albedo'),
+                                     ('transit_time', 'transit_time'))
+           if k1 in pl}
     planet = Planet(planet_mass=pl.get('mass', 1.0),
-                    planet_radius=pl.get('radius', 1.0))
+                    planet_radius=pl.get('radius', 1.0), **pkw)
+    skw = {k2: st[k1] for k1, k2 in (('distance', 'distance'),
+                                     ('magK', 'magnitudeK'), ('mass', 'mass'),
+                                     ('metallicity', 'metallicity'))
+           if k1 in st}
     star = BlackbodyStar(temperature=st.get('T', 5000.0),
-                         radius=st.get('radius', 1.0))
+                         radius=st.get('radius', 1.0), **skw)
     press = SimplePressureProfile(nlayers=cfg['nlayers'],
                                   atm_min_pressure=cfg.get('pmin', 1e-1),
                                   atm_max_pressure=cfg.get('pmax', 1e6))
